@@ -57,7 +57,7 @@ func crossProduct() []Gen {
 				loads = append(loads, "inburst")
 			}
 			if at != "in-only" {
-				loads = append(loads, "outflood", "outflood-stalled", "outflood-stalled-eof")
+				loads = append(loads, "outflood", "outflood-stalled", "outflood-stalled-eof", "outflood-stalled-exact")
 			}
 			for _, ld := range loads {
 				for _, first := range []string{"in", "out"} {
@@ -67,7 +67,7 @@ func crossProduct() []Gen {
 					hows := inHows
 					if first == "out" {
 						hows = outHows
-						if ld == "outflood-stalled-eof" {
+						if ld == "outflood-stalled-eof" || ld == "outflood-stalled-exact" {
 							// the stream has already ended by itself (unseen, behind the
 							// flood); what ends the shell is a cancellation
 							hows = []string{"cancel"}
@@ -214,6 +214,24 @@ func (s *series) runGen(n int, g Gen) {
 		for i := 0; i < 20; i++ {
 			w.Ich <- fmt.Sprintf("burst-%d-%d", n, i)
 		}
+	case "outflood-stalled-exact":
+		// as below, but the stream has NOT ended: the queue between transport and terminal is
+		// exactly full and the broker's reader is back in Read.  The shell is then cancelled and
+		// only afterwards does the transport close (the Read returns an error nobody waits for).
+		resume = w.StallOperator()
+		base := out.A.Rd.ReadCalls()
+		fill := s.och + 4
+		for i := 0; i < fill; i++ {
+			out.A.Rd.PushData(fmt.Sprintf("flood-%d-%d;", n, i))
+		}
+		for i := 0; i < 2000; i++ {
+			if out.A.Rd.ReadCalls()-base >= fill {
+				s.r.Count("readers_back_in_read_with_an_exactly_full_queue", 1)
+				break
+			}
+			time.Sleep(time.Millisecond)
+		}
+		time.Sleep(2 * time.Millisecond) // let the reader hand the last chunk on and call Read again
 	case "outflood-stalled-eof":
 		// The terminal is stalled and the shell sends exactly as many chunks as fit between
 		// the transport and the terminal (one in the terminal's hands, the operator channel's
@@ -640,6 +658,7 @@ func Run(r *mon.Run) {
 	if r.WantEngine("cross") && !r.Replaying() {
 		r.Floor("series_with_slow_listener", 5)
 		r.Floor("readers_holding_the_stream_end_behind_a_full_queue", 10)
+		r.Floor("readers_back_in_read_with_an_exactly_full_queue", 10)
 	}
 }
 
